@@ -373,6 +373,7 @@ func (p *typeCaseStmt) Then(cb *CodeBuilder, src ...ast.Node) {
 		}
 		name := types.NewParam(token.NoPos, cb.pkg.Types, pss.name, typ)
 		cb.current.scope.Insert(name)
+		cb.pkg.useName(pss.name)
 	}
 }
 
@@ -531,6 +532,7 @@ func (p *forRangeStmt) RangeAssignThen(cb *CodeBuilder, pos token.Pos) {
 			if scope.Insert(types.NewVar(token.NoPos, pkg.Types, name, typs[i])) != nil {
 				log.Panicln("TODO: variable already defined -", name)
 			}
+			pkg.useName(name)
 		}
 		if p.udt != 0 {
 			p.x = x
